@@ -1198,5 +1198,9 @@ func (c *CEnv) convert(v CVal, t types.Type) CVal {
 			return CVal{S: fmt.Sprintf("(%s %d %s)", box, tag, v.S), T: t}
 		}
 	}
+	if isFloat(from) && isInteger(t) && !e.bv() {
+		tw, ts := intWidth(t.Underlying().(*types.Basic))
+		return CVal{S: e.f2i(v.S, from, tw, ts), T: t}
+	}
 	return c.fail("unsupported conversion %s → %s in contract", from, t)
 }
